@@ -597,10 +597,20 @@ func (c *Ctx) pathStr(path []*ssa.BasicBlock) []string {
 
 // referrersOf lists instructions using v.
 func referrersOf(v ssa.Value) []ssa.Instruction {
-	if r := v.Referrers(); r != nil {
+	r := v.Referrers()
+	if r == nil {
+		return nil
+	}
+	if len(deadBlocks) == 0 {
 		return *r
 	}
-	return nil
+	var out []ssa.Instruction
+	for _, in := range *r {
+		if !deadBlocks[in.Block()] { // uses in code that can never run do not count (see prune.go)
+			out = append(out, in)
+		}
+	}
+	return out
 }
 
 // retVal resolves result #i of a return, looking through the result spill that
